@@ -340,6 +340,10 @@ func runC14(tier string) int {
 				st, ok := storemc.RunBackups(opt, col, label, r.pool, r.maxLen, r.other, dl)
 				opt.KeepBackup = 8
 				ic, ok2 := storemc.RunInterleaved(opt, col, label, storemc.BackupPool[:5], dl)
+				// the HyperLogLog write cache between several checkpoints: its own small pool
+				ic2, ok3 := storemc.RunInterleaved(opt, col, label+"/hll", storemc.HLLPool, dl)
+				ic += ic2
+				ok2 = ok2 && ok3
 				ok = ok && ok2
 				opt.KeepBackup = 2
 				pc := storemc.RunPurge(opt, col, label)
